@@ -5,6 +5,7 @@ CONSTANTS
   PerRound = 2
   NotifyMode = "token"
   TempApps = {}
+  TwoPhaseApps = {}
   ExitMode = "recheck"
 INVARIANTS FIFO LockOK
 CONSTRAINT Mark
